@@ -23,6 +23,8 @@ theorem decUint32_encUint (n : Nat) (h : n < 2 ^ 32) : decUint32 (encUint n) = .
   simp only [natToDec_toList, allDigits_natDigits, natDigits_val, ↓reduceIte, h]
 
 theorem decString_encStr (s : String) : decString (encStr s) = .ok s := rfl
+
+theorem encStr_eq (s : String) : encStr s = .str s (s.toList.all rawChar) := rfl
 theorem digitValBase_digit (c : Char) (h : isDigit c = true) : digitValBase c = digitVal c ∧ c ≠ '_' := by
   rcases isDigit_cases c h with h | h | h | h | h | h | h | h | h | h <;> subst h <;> decide
 
@@ -97,7 +99,7 @@ theorem parseBigInt0_intToDec (i : Int) : parseBigInt0 (intToDec i) = some i := 
     rfl
 
 theorem decMathInt_encMathInt (i : Int) (h : overflows256 i = false) : decMathInt (encMathInt i) = .ok i := by
-  unfold decMathInt encMathInt
+  unfold decMathInt encMathInt encStr
   simp only [Dec.bind_ok, parseBigInt0_intToDec, h, Bool.false_eq_true, ↓reduceIte]
 
 /-! ### base64 -/
@@ -256,7 +258,7 @@ theorem b64Decode_encode (l : Bytes) : b64Decode (b64Encode l) = some l := by
   rw [this, b64DecodeQuads_encode]
 
 theorem decBytes_encB64 (b : Bytes) : decBytes (encB64 b) = .ok b := by
-  unfold decBytes encB64
+  unfold decBytes encB64 encStr
   simp only
   rw [strBytes_asciiString _ (fun c hc => (b64Encode_chars b c hc).1), b64Decode_encode]
 
@@ -306,7 +308,7 @@ theorem intOfLiteral_intToDec (i lo hi : Int) (h1 : lo ≤ i) (h2 : i ≤ hi) : 
     simp only [this, ↓reduceIte]
 
 def EnumTableOk (names : List (Int × String)) : Prop :=
-  ∀ e ∈ names, names.find? (·.2 == e.2) = some e
+  ∀ e ∈ names, names.find? (·.2 == e.2) = some e ∧ e.2.toList.all rawChar = true
 
 theorem protocolIds_ok : EnumTableOk Gen.protocolIds := by unfold EnumTableOk; decide
 theorem actionIds_ok : EnumTableOk Gen.actionIds := by unfold EnumTableOk; decide
@@ -330,11 +332,11 @@ theorem decEnum_encEnum (names : List (Int × String)) (hn : EnumTableOk names) 
       have := List.find?_some hf
       simpa using this
     subst hm
-    unfold decEnum
-    simp only [Bool.not_true, Bool.false_eq_true, ↓reduceIte]
+    unfold decEnum encStr
     have := hn (m, s) hmem
     simp only at this
-    rw [this]
+    simp only [this.2, Bool.not_true, Bool.false_eq_true, ↓reduceIte]
+    rw [this.1]
 
 
 /-! ### messages -/
